@@ -57,6 +57,16 @@ func runC19(c *Cfg) {
 	case strings.HasPrefix(c.Replay, "conc:"):
 		c19ConcChild(strings.TrimPrefix(c.Replay, "conc:"))
 		return
+	case strings.HasPrefix(c.Replay, "classify:"):
+		// print the classes of the race reports in a saved stderr file (self-test of the classifier)
+		b, _ := os.ReadFile(strings.TrimPrefix(c.Replay, "classify:"))
+		var ks []string
+		for k := range c19ParseRaces(string(b), "derived") {
+			ks = append(ks, k)
+		}
+		sort.Strings(ks)
+		fmt.Println(strings.Join(ks, "\n"))
+		return
 	case strings.HasPrefix(c.Replay, "repro:"):
 		c19Repro(strings.TrimPrefix(c.Replay, "repro:"))
 		return
@@ -816,6 +826,7 @@ func c19ParseRaces(stderr string, cat string) (classes map[string]string) {
 			tops = append(tops, top)
 			secs = append(secs, sec)
 		}
+		rawTops := append([]string(nil), tops...)
 		sort.Strings(tops)
 		anyOf := func(frags ...string) bool {
 			for _, s := range secs {
@@ -827,18 +838,51 @@ func c19ParseRaces(stderr string, cat string) (classes map[string]string) {
 			}
 			return false
 		}
+		evalFrames := []string{"internal/core/adt.(*Vertex).Finalize()", "internal/core/adt.(*Vertex).unify()", "internal/core/adt.(*OpContext).unify()",
+			"internal/core/adt.(*Vertex).CompleteArcs()", "internal/core/adt.(*nodeContext).", "internal/core/adt.(*scheduler)."}
+		// writerTop: one of the two accesses is a WRITE whose top cue frame is fn (and,
+		// with outsideEval, whose stack has no evaluator frame)
+		writerTop := func(fn string, outsideEval bool) bool {
+			for i, sec := range secs {
+				head := ""
+				for _, ln := range strings.Split(sec, "\n") {
+					if strings.Contains(ln, " by goroutine ") || strings.Contains(ln, " by main goroutine") {
+						head = ln
+						break
+					}
+				}
+				if !strings.Contains(strings.ToLower(head), "write") || rawTops[i] != fn {
+					continue
+				}
+				if outsideEval {
+					in := false
+					for _, f := range evalFrames {
+						if strings.Contains(sec, f) {
+							in = true
+						}
+					}
+					if in {
+						continue
+					}
+				}
+				return true
+			}
+			return false
+		}
 		cls := "race:" + strings.Join(tops, "|")
 		switch {
 		case anyOf("cuelang.org/go/cue/format.Node()") && anyOf("internal/pretty/style.setCommentRelPos()", "cuelang.org/go/cue/ast.SetRelPos()"):
 			cls = "race-format-shared-ast"
-		case anyOf("cuelang.org/go/cue/errors.appendToList()"):
-			// repaired in /repo by 13ac4bf: a relapse is a violation (class not listed)
-			cls = "relapse-race-errors-append-shared-list"
-		case anyOf("internal/core/adt.(*ValueError).Msg()"):
-			// repaired in /repo by 13ac4bf: a relapse is a violation (class not listed)
+		case writerTop("internal/core/adt.(*ValueError).Msg", false):
+			// repaired in /repo by 13ac4bf (Msg wrote into the shared args slice): a WRITE
+			// whose top frame is Msg again is a relapse = violation (class never listed)
 			cls = "relapse-race-valueerror-msg"
-		case anyOf("internal/core/adt.(*Vertex).Finalize()", "internal/core/adt.(*Vertex).unify()", "internal/core/adt.(*OpContext).unify()",
-			"internal/core/adt.(*Vertex).CompleteArcs()", "internal/core/adt.(*nodeContext).", "internal/core/adt.(*scheduler)."):
+		case writerTop("cue/errors.appendToList", true):
+			// repaired in /repo by 13ac4bf (append into a shared error list from a read-only
+			// API such as Validate → CombineErrors): a write in appendToList that is NOT made
+			// by the evaluator finalising a vertex is a relapse = violation
+			cls = "relapse-race-errors-append-shared-list"
+		case anyOf(evalFrames...):
 			// at least one of the two accesses happens while the evaluator works on a vertex
 			// (Finalize / unify / the node scheduler) below a cue.Value method
 			cls = "race-lazy-finalize-" + cat
